@@ -26,15 +26,37 @@ def engine_jobs(prop, tier, cfgs, modes=(0,), nw=None, extra=()):
     return jobs
 
 
-def _engine_check(prop, cfgs, level_text, assumptions, modes=(0,)):
+def harness_jobs(harness, prop, tier, cfgs, nw=None, extra=(), sources=None):
+    jobs = []
+    for cfg in cfgs:
+        li = build.build_lib(cfg)
+        exe = build.build_harness(li, harness, sources or [harness + ".c"])
+        n = nw or (NCPU if tier == "thorough" else 8)
+        for i in range(n):
+            jobs.append(("%s/%s/%d" % (harness, cfg, i),
+                         [exe, "--prop", prop, "--tier", tier, "--seed", str(seed()), "--cfg", cfg,
+                          "--worker", "%d/%d" % (i, n)] + list(extra)))
+    return jobs
+
+
+QUERIES_RULE = ("queries: every string over a small alphabet (lengths 0..3 quick / 0..4 thorough) for both operands x dmax/slen at, "
+                "above and below the string length x object size known/unknown x placement, plus a wider alphabet for single-operand "
+                "functions and all NULL/zero/over-limit combinations")
+
+
+def _engine_check(prop, cfgs, level_text, assumptions, modes=(0,), queries=False):
     def run(tier):
         t0 = time.time()
         res = Results(prop)
         jobs = engine_jobs(prop, tier, cfgs, modes)
+        hs = ["engine"]
+        if queries:
+            jobs += harness_jobs("queries", prop, tier, ["plain"])
+            hs.append("queries")
         run_workers(jobs, res)
         res.evaluations = res.counters.get("calls", 0)
-        return finish(res, tier, "exploration", ENGINE_RULE, t0,
-                      extra_cov=dict(builds=list(cfgs), harnesses=["engine"], explanation=level_text),
+        return finish(res, tier, "exploration", ENGINE_RULE + ("; " + QUERIES_RULE if queries else ""), t0,
+                      extra_cov=dict(builds=list(cfgs), harnesses=hs, explanation=level_text),
                       assumptions=assumptions, min_evals=1000)
     return run
 
@@ -43,14 +65,30 @@ FENCE_ASSUME = ["x86-64 Linux: page-granular PROT_NONE guards, REG_ERR bit 1 dis
                 "accesses that stay inside mapped memory and inside no arena slot are not observed",
                 "library built from /repo working tree with -O1 plus the repository's semantic flags"]
 
-CHECKS["C01"] = _engine_check("C01", ["plain", "noslack"], "fence + arena diff", FENCE_ASSUME)
-CHECKS["C02"] = _engine_check("C02", ["plain"], "fence, exact-fit objects", FENCE_ASSUME)
+CHECKS["C01"] = _engine_check("C01", ["plain", "noslack"], "fence + arena diff", FENCE_ASSUME, modes=(0, 1), queries=True)
+CHECKS["C02"] = _engine_check("C02", ["plain"], "fence, exact-fit objects", FENCE_ASSUME, modes=(0, 1), queries=True)
 CHECKS["C03"] = _engine_check("C03", ["plain", "noslack"], "dirty-dest terminator scan", FENCE_ASSUME)
 CHECKS["C04"] = _engine_check("C04", ["plain", "noslack"], "before/after images on failure", FENCE_ASSUME)
-CHECKS["C05"] = _engine_check("C05", ["plain"], "counting probe handlers + constraint classifier", FENCE_ASSUME)
+CHECKS["C05"] = _engine_check("C05", ["plain"], "counting probe handlers + constraint classifier", FENCE_ASSUME, queries=True)
 CHECKS["C06"] = _engine_check("C06", ["plain", "noslack"], "differential against reference models", FENCE_ASSUME)
 CHECKS["C07"] = _engine_check("C07", ["plain", "noslack"], "all relative placements inside one arena", FENCE_ASSUME, modes=(1,))
 CHECKS["C08"] = _engine_check("C08", ["plain", "noslack"], "slack scan after success", FENCE_ASSUME)
+
+
+def _c10(tier):
+    t0 = time.time()
+    res = Results("C10")
+    run_workers(harness_jobs("queries", "C10", tier, ["plain"]), res)
+    res.evaluations = res.counters.get("c10_decided", 0)
+    return finish(res, tier, "exploration", QUERIES_RULE + "; non-trivial = the function answered (success / not-found) and the reference "
+                  "computed on bounded private copies had an expectation; distinct per (function, operand lengths, termination, bounds relation, outcome)",
+                  t0, extra_cov=dict(builds=["plain"], harnesses=["queries"], calls=res.counters.get("calls", 0),
+                                     exhaustive=True, exhaustive_scope="all strings over the stated alphabets and lengths for each function"),
+                  assumptions=FENCE_ASSUME + ["reference models: 41 small C functions in harness/queries.c written from the doc comments / libc semantics"],
+                  min_evals=1000)
+
+
+CHECKS["C10"] = _c10
 
 
 def replay(path):
